@@ -187,7 +187,10 @@ def ports_inline(chk: Check, n: int) -> None:
         strs.add("".join(rng.choice(alpha) for _ in range(k)))
     strs = sorted(strs)
     renderer_cls = next(v for v in vars(fm).values() if isinstance(v, type) and hasattr(v, "render_code_span") and hasattr(v, "render_link_ref_def"))
+    import marko.inline
     impls = {
+        "strip_backslash": marko.inline.Literal.strip_backslash,          # the specification of the parser's escape removal
+        "escape_backslashes": fm._escape_backslashes,
         "link_destination": fm._link_destination,
         "normalize_title_quotes": fm._normalize_title_quotes,
         "render_code_span": lambda s: renderer_cls.render_code_span(None, SimpleNamespace(children=s)),
